@@ -554,7 +554,12 @@ class SX:
                 if not m['complete']:
                     cov['exhaustive'] = False
                 cov['samples'] += m['samples'][:1]
-        results = self.run_configs(binary, self.configs(prop, tier), deadline, t0)
+        cfgs = self.configs(prop, tier)
+        if tier != 'quick':
+            # every configuration is first run with the default schedule and all schedules without preemption (cheap), so that a
+            # deep early configuration cannot keep a later one from being exercised at all before the deadline
+            cfgs = sorted(set((d, w, t, v, 0) for (d, w, t, v, b) in cfgs if b > 0)) + cfgs
+        results = self.run_configs(binary, cfgs, deadline, t0)
         if prop == 'C09':
             # SX treats the code between two synchronisation operations as atomic, which is only sound if the block builder is
             # free of data races: the same driver is therefore also explored under TSan (vector-clock check on every schedule).
